@@ -451,11 +451,3 @@ package expressions
 //@ requires recv: ctx != nil && ctx.bindings != nil
 //@ assigns M$has$Str$Val, M$val$Str$Val
 //@ ensures bound: mapset(ctx.bindings, name, value)
-
-// EvaluateString: the public wrapper of Parse and Evaluate. A caller hands in a context
-// (nil is a caller error, as for Evaluate itself); a source that does not parse is an error.
-//@ func expressions.EvaluateString
-//@ props C01
-//@ panics nothing
-//@ requires ctx: ctx != nil && (is(ctx, *expressions.context) ==> pl_ptr(ctx) != 0)
-//@ assigns *
